@@ -1152,6 +1152,9 @@ class Canon:
                     target_w = w
                 elif isinstance(w, ast.Compare) and isinstance(w.left, ast.NamedExpr):
                     target_w = w.left
+                elif (isinstance(w, ast.Call) and isinstance(w.func, ast.Name) and w.func.id == "isinstance" and len(w.args) == 2  # noqa: PLR2004
+                      and isinstance(w.args[0], ast.NamedExpr) and not w.keywords):
+                    target_w = w.args[0]
                 if target_w is None:
                     if any(isinstance(n, ast.NamedExpr) for n in ast.walk(w)):
                         break
@@ -1161,6 +1164,8 @@ class Canon:
                 name_load = ast.Name(id=target_w.target.id, ctx=ast.Load())
                 if w is target_w:
                     new_w: ast.expr = name_load
+                elif isinstance(w, ast.Call):
+                    new_w = _loc(ast.Call(func=w.func, args=[name_load, w.args[1]], keywords=[]), w)
                 else:
                     new_w = _loc(ast.Compare(left=name_load, ops=w.ops, comparators=w.comparators), w)  # type: ignore[union-attr]
                 inner_vals = [new_w] + vals[k + 1:]
@@ -1644,6 +1649,47 @@ class Canon:
             return ast.BoolOp(op=ast.Or(), values=tests)  # type: ignore[arg-type]
         if isinstance(p, ast.MatchClass) and not p.patterns and not p.kwd_patterns:
             return ast.Call(func=ast.Name(id="isinstance", ctx=ast.Load()), args=[copy.deepcopy(subj), p.cls], keywords=[])
+        if isinstance(p, ast.MatchClass) and (p.kwd_patterns or p.patterns):
+            # `Cls(attr=P)`: an instance whose attribute matches P; `str(P)` / `list(P)` / a list subclass of the package
+            # with one positional sub-pattern: the subject itself matches P (classes that match as a whole)
+            tests_c: List[ast.expr] = [ast.Call(func=ast.Name(id="isinstance", ctx=ast.Load()), args=[copy.deepcopy(subj), p.cls], keywords=[])]
+            if p.patterns:
+                whole = {"bool", "bytearray", "bytes", "dict", "float", "frozenset", "int", "list", "set", "str", "tuple", "NodeList"}
+                if len(p.patterns) != 1 or not (isinstance(p.cls, ast.Name) and p.cls.id in whole):
+                    return None
+                t0 = self._pattern_test(p.patterns[0], subj, binds)
+                if t0 is None:
+                    return None
+                if not (isinstance(t0, ast.Constant) and t0.value is True):
+                    tests_c.append(t0)
+            for attr, sub in zip(p.kwd_attrs, p.kwd_patterns):
+                ta = self._pattern_test(sub, ast.Attribute(value=copy.deepcopy(subj), attr=attr, ctx=ast.Load()), binds)
+                if ta is None:
+                    return None
+                # (a missing attribute makes the pattern fail; the classes of this package that are matched this way
+                # set the attributes they are matched on in their constructors)
+                if not (isinstance(ta, ast.Constant) and ta.value is True):
+                    tests_c.append(ta)
+            return tests_c[0] if len(tests_c) == 1 else ast.BoolOp(op=ast.And(), values=tests_c)
+        if isinstance(p, ast.MatchSequence) and not any(isinstance(x, ast.MatchStar) for x in p.patterns):
+            # `[]`, `[x]`, `(a, b)`: a sequence (not str / bytes) of exactly that length whose items match
+            if not _simple(subj):
+                return None
+            seq_t = ast.Call(func=ast.Name(id="isinstance", ctx=ast.Load()), args=[copy.deepcopy(subj), ast.Name(id="Sequence", ctx=ast.Load())], keywords=[])
+            not_text = ast.UnaryOp(op=ast.Not(), operand=ast.Call(func=ast.Name(id="isinstance", ctx=ast.Load()), args=[
+                copy.deepcopy(subj), ast.Tuple(elts=[ast.Name(id="str", ctx=ast.Load()), ast.Name(id="bytes", ctx=ast.Load()), ast.Name(id="bytearray", ctx=ast.Load())],
+                                               ctx=ast.Load())], keywords=[]))
+            len_t = ast.Compare(left=ast.Call(func=ast.Name(id="len", ctx=ast.Load()), args=[copy.deepcopy(subj)], keywords=[]), ops=[ast.Eq()],
+                                comparators=[ast.Constant(value=len(p.patterns))])
+            tests_s: List[ast.expr] = [seq_t, not_text, len_t]
+            for i_, sub in enumerate(p.patterns):
+                item = ast.Subscript(value=copy.deepcopy(subj), slice=ast.Constant(value=i_), ctx=ast.Load())
+                ti = self._pattern_test(sub, item, binds)
+                if ti is None:
+                    return None
+                if not (isinstance(ti, ast.Constant) and ti.value is True):
+                    tests_s.append(ti)
+            return ast.BoolOp(op=ast.And(), values=tests_s)
         if isinstance(p, ast.MatchAs) and p.pattern is None:
             if p.name is not None:
                 binds.append(ast.Assign(targets=[ast.Name(id=p.name, ctx=ast.Store())], value=copy.deepcopy(subj)))
@@ -1677,9 +1723,17 @@ class Canon:
             if t is None:
                 return None
             if c.guard is not None:
+                guard = c.guard
                 if binds:
-                    return None  # the guard may use the capture
-                t = ast.BoolOp(op=ast.And(), values=[t, c.guard])
+                    # the guard may use the captures: they are written out in it (a capture is a name for a simple
+                    # expression - the subject, an item or an attribute of it)
+                    bound_names = {b.targets[0].id for b in binds}  # type: ignore[attr-defined]
+                    if any(isinstance(n, ast.Name) and n.id in bound_names and isinstance(n.ctx, ast.Store) for n in ast.walk(guard)):
+                        return None
+                    guard = copy.deepcopy(guard)
+                    for b in binds:
+                        guard = _Subst(b.targets[0].id, b.value).visit(guard)  # type: ignore[attr-defined]
+                t = ast.BoolOp(op=ast.And(), values=[t, guard]) if not (isinstance(t, ast.Constant) and t.value is True) else guard
             body = [_loc(b, s) for b in binds] + list(c.body)
             if isinstance(t, ast.Constant) and t.value is True:
                 default = body
